@@ -2117,6 +2117,7 @@ class LogicalFile:
         self._check_completeness()
         self._check_sets_not_shared()
         self._check_channels_assigned_to_frames()
+        self._check_references_within_logical_file()
         self._check_defining_origin_params()
 
     def _check_sets_not_shared(self) -> None:
@@ -2136,6 +2137,32 @@ class LogicalFile:
                             f"{eflr_set} is used by more than one logical file; objects of different logical files "
                             f"must be added to sets of different names (use the 'set_name' argument)"
                         )
+
+    def _check_references_within_logical_file(self) -> None:
+        """Check that every object referenced by an object (or no-format data) of this logical file belongs to it.
+
+        References are written as the name (origin, copy number, identifier) of the referenced object, which a reader
+        resolves within the same logical file; an object of another logical file cannot be referred to.
+        """
+
+        own_sets = [eflr_set for set_dict in self._eflr_sets.values() for eflr_set in set_dict.values()]
+
+        def check(referenced: EFLRItem, referencing: Any) -> None:
+            if not any(referenced.parent is eflr_set for eflr_set in own_sets):
+                raise RuntimeError(
+                    f"{referenced} referenced from {referencing} does not belong to the same logical file"
+                )
+
+        for eflr_set in own_sets:
+            for item in eflr_set.get_all_eflr_items():
+                for attr in item.attributes.values():
+                    values = attr.value if isinstance(attr.value, (list, tuple)) else (attr.value,)
+                    for v in values:
+                        if isinstance(v, EFLRItem):
+                            check(v, item)
+
+        for nf in self._no_format_frame_data:
+            check(nf.no_format_object, "no-format frame data")
 
     def _check_defining_origin_params(self) -> None:
         """Check that the file_id of the defining origin is the same as the ID of the header."""
